@@ -5,6 +5,7 @@ import (
 	"errors"
 	"fmt"
 	"io"
+	"strings"
 
 	"github.com/gobwas/ws"
 	"github.com/gobwas/ws/wsutil"
@@ -280,6 +281,26 @@ func c08Direct(r *eng.Run) {
 	}
 	dst := NewPipe(r, nil)
 	h := ControlHandlerFor(side, src, dst, disable)
+	// Or the frames are in memory already (a received datagram, a test
+	// fixture): the source is a standard in-memory reader with more behind
+	// the payload.
+	var mem interface {
+		io.Reader
+		Len() int
+	}
+	memTotal := len(srcBytes) + len(trailer)
+	switch r.T.Int(sim.LCfg, 6) {
+	case 0:
+		mem = bytes.NewReader(src.In)
+	case 1:
+		mem = bytes.NewBuffer(append([]byte(nil), src.In...))
+	case 2:
+		mem = strings.NewReader(string(src.In))
+	}
+	if mem != nil {
+		h.Src = mem
+		r.Probe("handler_source_is_a_std_in_memory_reader")
+	}
 	h.State = c08State(r, side)
 	r.Note("C08 ControlHandler.Handle side=%d disableSrcCiphering=%v frame=%s payload=%x seg=%d", side, disable, frameStr(f), head(f.Payload, 16), src.SegMode)
 	r.Res.Nontrivial = true
@@ -311,6 +332,16 @@ func c08Direct(r *eng.Run) {
 	checkCtrlReturn(r, what, e, err)
 	// Zero-length ping/pong/close need not touch the source; otherwise exactly
 	// Length bytes belong to the frame.
+	if mem != nil {
+		consumed := memTotal - mem.Len()
+		if consumed > len(f.Payload) {
+			r.Failf("handler_overread", "%s: handler consumed %d bytes from the %T source, the payload has %d", what, consumed, mem, len(f.Payload))
+		}
+		if f.Op != ref.OpPong && len(f.Payload) > 0 && consumed != len(f.Payload) {
+			r.Failf("handler_underread", "%s: handler consumed %d of %d payload bytes from the %T source", what, consumed, len(f.Payload), mem)
+		}
+		return
+	}
 	if src.Consumed() > len(f.Payload) {
 		r.Failf("handler_overread", "%s: handler consumed %d bytes from the source, the payload has %d", what, src.Consumed(), len(f.Payload))
 	}
